@@ -497,6 +497,11 @@ func (fc *FCtx) specCall(n *SNode, env *Env) Val {
 					evalArgs()
 					return fc.keyFnApply(key, args)
 				}
+				if c := fc.E.cs.Funcs[key]; c != nil && c.Flags["pure"] != "" {
+					if v, ok := fc.specPureCallKey(key, n, env); ok {
+						return v
+					}
+				}
 				if sf, ok := fc.E.cs.Specs[fn.Name]; ok && sf.Pkg == p.Path() {
 					evalArgs()
 					fc.declareSpecFn(sf)
@@ -939,7 +944,11 @@ func (fc *FCtx) specPureCall(name string, n *SNode, env *Env) (Val, bool) {
 	if env.pkg == nil {
 		return Val{}, false
 	}
-	key := env.pkg.PkgPath + "." + name
+	return fc.specPureCallKey(env.pkg.PkgPath+"."+name, n, env)
+}
+
+func (fc *FCtx) specPureCallKey(key string, n *SNode, env *Env) (Val, bool) {
+	name := key
 	c := fc.E.cs.Funcs[key]
 	fi := fc.E.funcs[key]
 	if c == nil || fi == nil || c.Flags["pure"] == "" {
